@@ -66,6 +66,9 @@ def _run_one(item):
             _call(out, "parity:" + key, lambda: float(np.real(st.parity_expectation(ms))))
             if len(ms) == 2:
                 _call(out, "number_expectation:" + key, lambda: [float(np.real(v)) for v in st.number_expectation(ms)])
+            if cfg in ("gaussian", "bosonic") and len(ms) > 1:
+                # displacements "corresponding to the list of specified modes": in the order requested
+                _call(out, "displacement_t:" + key, lambda: _tolist(np.real(st.displacement(ms))) + _tolist(np.imag(st.displacement(ms))))
             if cfg == "gaussian":
                 _call(out, "reduced:" + key, lambda: [_tolist(np.real(a)) for a in st.reduced_gaussian(ms)])
             elif cfg == "bosonic":
@@ -131,7 +134,7 @@ def _run_one(item):
             for which in ("x", "p"):
                 _call(out, "polyquad1:%s:%d" % (which, m), lambda: pq(which, False))
                 _call(out, "polyquad2:%s:%d" % (which, m), lambda: pq(which, True))
-            if cfg == "gaussian":
+            if cfg in ("gaussian", "bosonic"):
                 _call(out, "displacement:%d" % m, lambda: [float(np.real(st.displacement([m])[0])), float(np.imag(st.displacement([m])[0]))])
         _call(out, "fidelity_coherent0", lambda: float(np.real(st.fidelity_coherent([0.0] * n))))
         # the state object for an explicit ordered mode selection (engine run option `modes` / backend.state(modes=...)):
@@ -442,6 +445,8 @@ def judge(chk, cfg, cutoff, it, o):
         elif red is not None:
             check("reduced", "reduced_mu:" + key, red[0], mu, s1, ms)
             check("reduced", "reduced_cov:" + key, red[1], V, s2, ms)
+        if "displacement_t:" + key in o:
+            check("displacement", "displacement_t:" + key, o["displacement_t:" + key], [x / 2 for x in mu], s1, ms)
         rdm = o.get("reduced_dm:" + key)
         if rdm is not None:
             if isinstance(rdm, dict):
